@@ -883,7 +883,7 @@ _durations = [
 
 
 _rule_durations = r"|".join(
-    r"(?P<d_{}>{}\b)".format(dur.value, expr) for dur, expr in _durations
+    r"(?P<d_{}>(?:{})\b)".format(dur.value, expr) for dur, expr in _durations
 )
 _rule_durations = r"({})\s*".format(_rule_durations)
 
